@@ -1469,3 +1469,24 @@ def m_checked_shift(ex, a, callee, canon):
         return NONE()
     amt = z3.Extract(n - 1, 0, r.t) if r.t.size() >= n else z3.ZeroExt(n - r.t.size(), r.t)
     return some(Int(z3.simplify((x.t << amt) if canon.endswith("checked_shl") else z3.LShR(x.t, amt)), x.ty))
+
+
+@model(r"^<(\w+::)*(\w+) as (num_traits::)?FromPrimitive>::from_(u8|u16|u32|u64|i32|i64|usize)$")
+def m_enum_from_primitive(ex, a, callee, canon):
+    """num_derive FromPrimitive on a fieldless enum of the crate (discriminants read from the source)"""
+    m = re.match(r"^<(?:\w+::)*(\w+) as", canon)
+    en = m.group(1)
+    table = ex.P.enums.get(en)
+    if not table or not all(isinstance(v, int) for v in table.values()):
+        raise Unsupported("FromPrimitive for " + en)
+    v = a[0]
+    cv = v.concrete()
+    if cv is None:
+        vals = sorted(set(table.values()))
+        cv = ex.concretize(v.t, vals)
+        if cv is None:
+            return NONE()
+    for name, d in table.items():
+        if d == cv:
+            return some(Enum(en, name, d))
+    return NONE()
